@@ -32,3 +32,18 @@ Theorem C15_unrepr_repr_str : forall pr s rest, Forall (fun c => (c < 4294967296
   unrepr_str (py_repr_with pr s ++ rest) = Some (s, rest).
 Proof. exact unrepr_repr_str. Qed.
 Print Assumptions C15_unrepr_repr_str.
+
+(* eval(repr(t)) == t at tree level: for every well-formed tree t (any depth f, any classes, any
+   string contents with code points below 2^32, any coordinates) and every printability oracle,
+   evaluating the text Node.__repr__ emits yields the same tree with coord = None. *)
+From PV Require Import PyEvalTree EvalTreeProofs.
+Theorem C15_eval_repr_tree : forall (P: Type) (pr: N -> bool) f (v: value P) fuel, wf P f v -> (f <= fuel)%nat ->
+  pyeval P fuel (repr_value P pr f v) = Some (strip P v).
+Proof. exact eval_repr_tree. Qed.
+Print Assumptions C15_eval_repr_tree.
+
+(* non-vacuity: a concrete tree with a list, nested nodes, None and strings needing escapes is well formed *)
+Example C15_wf_example :
+  wf nat 5 (VNode C_FuncCall [VNode C_ID [VStr [97; 39; 34; 92; 10]%N] (Some 7%nat);
+                              VNode C_ExprList [VList [VNode C_Constant [VStr [105; 110; 116]%N; VStr [49]%N] None; VNode C_Return [VNone] None]] None] None).
+Proof. cbn. repeat (first [split | constructor | reflexivity | (vm_compute; reflexivity)]). Qed.
